@@ -26,6 +26,8 @@ def seed_list(tier):
                                'kinds': ['A', 'M', 'B', 'Zx', 'S']}},
         {'kind': 'U', 'file': {'lens': {'t': 1, 'z': 2, 'x': 2}, 'unl': False,
                                'kinds': ['A', 'B', 'X', 'Ch']}},
+        # a variable that carries one dimension on two axes (averaging kernel K(t,x,x))
+        {'kind': 'U', 'file': {'lens': {'t': 2, 'z': 1, 'x': 3}, 'unl': True, 'kinds': ['A', 'X', 'Kxx']}},
         {'kind': 'U', 'file': {'lens': {'t': 3, 'z': 1, 'x': 2}, 'unl': True,
                                'kinds': ['S', 'B', 'M0']}},
         {'kind': 'U', 'file': {'lens': {'t': 2, 'z': 2, 'x': 2}, 'unl': True,
